@@ -140,6 +140,8 @@ class Machine:
         pc = self.p.entry[symbol]
         code = self.p.code
         lo_stack = self.STACK_TOP - 0x400
+        # the frame starts as junk on every run (see thumb.py)
+        mem[lo_stack:self.STACK_TOP] = b"\xA5\x5A\xC3\x3C" * ((self.STACK_TOP - lo_stack) // 4)
 
         def chk(addr, size):
             if lo_stack <= addr and addr + size <= self.STACK_TOP:
